@@ -253,6 +253,49 @@ def component_tie(ctx, info, cases):
 
 
 # --------------------------------------------------------------------------------------------
+# cases aimed at the case splits of coq/C08/HashBridge*.v (list model vs. the real hash table)
+# --------------------------------------------------------------------------------------------
+
+# Properties_C08.ex_real_table_run: block size 4, constant checksum, [1] [2] [3] [1] [2]+DONT_DEDUPLICATE [4] [5 5] [3]
+BRIDGE_EXAMPLE = gen.case_line(4, 3, 0, 1, 0, 3, [(0, b"\x01"), (0, b"\x02"), (0, b"\x03"), (0, b"\x01"),
+                                                 (gen.F_DONT_DEDUP, b"\x02"), (0, b"\x04"), (0, b"\x05\x05"),
+                                                 (0, b"\x03")])
+
+
+def gen_bridge_cases(seed, n):
+    """Many DIFFERENT tail ends of one size under a tiny checksum range, so that the fragment hash table of the real
+    block processor grows through several rows of hash_sizes[] (3, 5, 9, 17, 33, 65 entries) with long probing chains of
+    equal stored hashes; in between true duplicates (search must find the entry, also after a resize re-inserted it
+    elsewhere) and DONT_DEDUPLICATE duplicates (insert must REPLACE the entry: later duplicates share the NEW place)."""
+    rnd = random.Random(seed * 7919 + 5)
+    out = [BRIDGE_EXAMPLE]
+    for _ in range(n):
+        bs = rnd.choice([8, 16, 32])
+        backlog = rnd.choice([3, 4, 10, 50, 200])
+        hm = rnd.choice([0, 1, 2, 3, 5, 5, 251, 65521])
+        sz = rnd.randint(2, min(4, bs - 1))
+        ndist = rnd.choice([3, 5, 9, 17, 33, 40, 70])
+        distinct = []
+        while len(distinct) < ndist:
+            d = bytes(rnd.randint(0, 255) for _ in range(sz))
+            if d not in distinct:
+                distinct.append(d)
+        files, seen = [], []
+        for d in distinct:
+            files.append((0, d))
+            seen.append(d)
+            r = rnd.random()
+            if r < 0.25:
+                files.append((gen.F_DONT_DEDUP, rnd.choice(seen)))
+            elif r < 0.5:
+                files.append((0, rnd.choice(seen)))
+        for d in rnd.sample(seen, min(12, len(seen))):
+            files.append((0, d))
+        out.append(gen.case_line(bs, backlog, 0, 1, hm, rnd.choice([0, 96]), files))
+    return out
+
+
+# --------------------------------------------------------------------------------------------
 # tool-level search oracle
 # --------------------------------------------------------------------------------------------
 
@@ -766,7 +809,8 @@ def run(ctx):
     cp = os.path.join(HERE, "corpus.txt")
     if os.path.exists(cp):
         corpus = [l.strip() for l in open(cp) if l.strip() and not l.startswith("#")]
-    cases = corpus + gen.gen_cases(ctx.seed, n_comp, n_frag, n_long, n_uns)
+    n_bridge = 40 if ctx.tier == "quick" else 600
+    cases = corpus + gen_bridge_cases(ctx.seed, n_bridge) + gen.gen_cases(ctx.seed, n_comp, n_frag, n_long, n_uns)
     res = component_tie(ctx, info, cases)
     st = res["stats"]
     ctx.log("component tie: %d cases, %d tie mismatches, %d property failures %.1fs"
@@ -775,11 +819,12 @@ def run(ctx):
     ctx.coverage["traces_validated_against_impl"] = (st["cases"] - len(res["tie_bad"])) if res["model"] else 0
     ctx.coverage["distinct_nontrivial"] = st["with_colliding_different_data"]
     ctx.coverage["rule"] = (
-        "component cases (seed %d): %d files-from-a-small-pool cases (block size 4..64, toy checksum modulus in "
+        "component cases (seed %d): 1 + %d hash-table cases (up to 70 different equal-sized tail ends under a 1..5-valued (sometimes 251 / 65521-valued) checksum: "
+        "the real table resizes up to 6 times; duplicates found after a resize; DONT_DEDUPLICATE replaces), %d files-from-a-small-pool cases (block size 4..64, toy checksum modulus in "
         "{0,1,2,3,5,7,251,65521}, backlog 3..50, flags), %d many-small-files cases (fragment block current / in flight / "
         "on disk), %d long-run cases (> 4096-byte comparison window), %d cases in the two unsound configurations; "
         "non-trivial = the case contains two different blocks or tails of equal size and equal checksum"
-        % (ctx.seed, n_comp, n_frag, n_long, n_uns))
+        % (ctx.seed, n_bridge, n_comp, n_frag, n_long, n_uns))
     ctx.coverage["component"] = dict(st)
     ctx.add_samples(res.get("samples", []))
     tie_or_proof_broken = bool(res["tie_bad"] or res["crash"] or ctx.proof_broken)
